@@ -25,6 +25,12 @@ package parser
 //@   at call Parse$6#* modifies pt.ExpectParam, pt.Parameters, elems(pt.Parameters), pt.pop
 //@   at call Parse$7#* modifies pt.Escaped, pt.FuncName, pt.Parameters, elems(pt.Parameters), syntaxHighlighted, reset
 //@   loop 1 step imp(old(pt.Unsafe), pt.Unsafe)
+// a `<` that opens a redirection (outside comments, escapes, quotes, variable names and command names) marks
+// the line unsafe - at any block depth
+//@   loop 1 step imp(!old(pt.Comment) && old(pt.VarSigil) == "" && !old(pt.Escaped) && !old(readFunc) && !old(pt.ExpectFunc) && !old(pt.QuoteSingle) && !old(pt.QuoteDouble) && old(pt.QuoteBrace) <= 0 && block[old(i)] == '<', pt.Unsafe)
+// a command name that is still being read (readFunc) stops being pending only in an iteration that looked
+// it up in the safe list - or that marked the line unsafe anyway
+//@   loop 1 step imp(old(readFunc) && !readFunc, calledsince("isCmdUnsafe") || pt.Unsafe)
 // a `$` (variable or sub-shell) outside comments, escapes, single quotes and variable names marks the line unsafe
 //@   loop 1 step imp(!old(pt.Comment) && old(pt.VarSigil) == "" && !old(pt.Escaped) && !old(pt.QuoteSingle) && block[old(i)] == '$', pt.Unsafe)
 
